@@ -274,8 +274,8 @@ theorem diffRules_spec {ctx : Ctx} {G0 : List Group} (hc : CtxOK ctx G0)
     let ctx' : Ctx := { ctx with pid := pa.id }
     let aS := sortRules ctx.gma pa.rules
     let bS := sortRules ctx.gmb bR
-    have hpa : aS.Perm pa.rules := List.mergeSort_perm _ _
-    have hpb : bS.Perm bR := List.mergeSort_perm _ _
+    have hpa : aS.Perm pa.rules := isort_perm _ _
+    have hpb : bS.Perm bR := isort_perm _ _
     let rs := ctx.diff aS.length bS.length fun i j => ruleEqual ctx.gma ctx.gmb aS[i]! bS[j]!
     have hvalid := hdiff aS.length bS.length fun i j => ruleEqual ctx.gma ctx.gmb aS[i]! bS[j]!
     have hwalk : Walk ctx' (itemsOf rs aS bS) aS bS := by
